@@ -1,3 +1,6 @@
 package main
 
-func moreFacts() {}
+func moreFacts() {
+	fuseROFacts()
+	walFacts()
+}
